@@ -24,6 +24,11 @@ import (
 )
 
 func init() {
+	firsts["C11"] = c11.FirstCalls
+	firsts["C04"] = c04.FirstCalls
+	firsts["C06"] = c06.FirstCalls
+	firsts["C18"] = c18.FirstCalls
+	firsts["C19"] = c19.FirstCalls
 	props["C01"] = prop{c01.Run, c01.Replay}
 	props["C02"] = prop{c02.Run, c02.Replay}
 	props["C03"] = prop{c03.Run, c03.Replay}
